@@ -165,3 +165,23 @@ fn sni_decision_sweep() {
         }
     }
 }
+
+/// ti.recv.some [C20] (unit tlsinfo): every request on a TLS connection obtains the connection's TLS information, also
+/// when several requests ask for it concurrently before the handshake result has been published.
+#[tokio::test]
+async fn tls_info_for_concurrent_requests() {
+    use crate::info::tls::channel;
+    for n in [2usize, 3, 5] {
+        let (mut tx, rx) = channel();
+        let handles: Vec<_> = (0..n).map(|_| { let rx = rx.clone(); tokio::spawn(async move { rx.recv().await }) }).collect();
+        for _ in 0..3 { tokio::task::yield_now().await; }
+        tx.send(TlsConnectionInfo { server_name: Some("example.com".into()), ..TlsConnectionInfo::default() });
+        for h in handles {
+            let got = tokio::time::timeout(std::time::Duration::from_secs(2), h).await.expect("recv hangs").expect("recv panicked");
+            assert_eq!(got.and_then(|i| i.server_name), Some("example.com".to_string()),
+                "a request on a TLS connection was told that the connection has no TLS information");
+        }
+        // later requests, too
+        assert!(rx.recv().await.is_some());
+    }
+}
